@@ -259,7 +259,12 @@ pub fn run_cfg(c: &Cfg) -> Result<Outcome, String> {
                 out.queries += 1;
                 let got = guarded("find_from_time_with_max_lines", || s.find_from_time_with_max_lines(*b, m))?.map_err(|e| format!("search-error: find_from_time_with_max_lines({}, {}) with a {}: {}", b, m, who, e))?;
                 let got: Vec<u64> = got.iter().map(|x| uid_of(x).0).collect();
-                if got != want {
+                // the answer is the items from `b` on in write order: at least `m` of them (or all there
+                // are), at most up to the end of the second in which the limit is reached
+                let all_from_b = expect_lines(&retained, *b, usize::MAX);
+                let min_len = m.min(all_from_b.len());
+                let ok = got.len() >= min_len && got.len() <= want.len() && got[..] == want[..got.len()];
+                if !ok {
                     return Err(format!("line-limit-query: find_from_time_with_max_lines(begin = {}{} ms, max_lines {}) with a {} returned items {:?}, written and retained: {:?}", if *b >= secs[0] * 1000 { "first second +" } else { "before first second, " }, *b as i64 - (secs[0] * 1000) as i64, m, who, got, want));
                 }
             }
@@ -363,14 +368,22 @@ pub fn run_cfg(c: &Cfg) -> Result<Outcome, String> {
     Ok(out)
 }
 
+/// length of one metric line as the writer issues it (all items of the histories have the same)
+fn line_len() -> u64 {
+    (MetricItem::verif_new(RES[0].into(), ResourceType::Common, T_CREATE, 1001, 2, 3, 4, 5, 0, 7).to_string().len() + 1) as u64
+}
+
 pub fn configs(thorough: bool) -> Vec<Cfg> {
     let mut v = vec![];
-    let gap_patterns: Vec<Vec<u64>> = vec![vec![1, 1, 1, 1], vec![2, 1, 60, 1], vec![1, 86400, 1, 1], vec![3, 1, 1, 86400, 2, 1], vec![1, 2, 1, 1, 60, 1], vec![1; 13]];
+    let l = line_len();
+    // gap 0 = a second write() call within the same second
+    let gap_patterns: Vec<Vec<u64>> = vec![vec![1, 1, 1, 1], vec![2, 1, 60, 1], vec![1, 86400, 1, 1], vec![3, 1, 1, 86400, 2, 1], vec![1, 2, 1, 1, 60, 1], vec![1; 13], vec![1, 0, 1, 0, 0, 1]];
     let res_patterns: Vec<Vec<Vec<usize>>> = vec![vec![vec![0]], vec![vec![0, 1], vec![2]], vec![vec![0, 1, 2], vec![1], vec![2, 0]]];
     let mut k = 0;
     for gaps in &gap_patterns {
         for res in &res_patterns {
-            for max_size in [1u64, 120, 500, 1 << 20] {
+            // l, 2l, 3l: a file that is EXACTLY full after a write (the roll-over test is >=)
+            for max_size in [1u64, 120, 500, 1 << 20, l, 2 * l, 3 * l] {
                 for max_files in [1usize, 2, 3, 4] {
                     k += 1;
                     if !thorough && k % 5 != 0 {
@@ -387,17 +400,25 @@ pub fn configs(thorough: bool) -> Vec<Cfg> {
         }
     }
     if thorough {
-        // every write history of 1..=5 seconds over the gap alphabet {next second, one second
-        // skipped, a minute later, the next day}, x resource pattern x size limit x file count
-        let alphabet = [1u64, 2, 61, 86400];
-        let mut level: Vec<Vec<u64>> = vec![vec![]];
+        // every write history of 1..=4 write calls over the gap alphabet {same second again (not
+        // as the first call), next second, one second skipped, a minute later, the next day}, and
+        // every history of exactly 5 calls over the alphabet without "same second";
+        // x resource pattern x size limit x file count
         let mut all: Vec<Vec<u64>> = vec![];
-        for _ in 0..5 {
+        let mut level: Vec<Vec<u64>> = vec![vec![]];
+        for depth in 0..5 {
+            let alphabet: &[u64] = if depth < 4 { &[0, 1, 2, 61, 86400] } else { &[1, 2, 61, 86400] };
             let mut next = vec![];
             for g in &level {
+                if depth == 4 && g.contains(&0) {
+                    continue;
+                }
                 for a in alphabet {
+                    if g.is_empty() && *a == 0 {
+                        continue;
+                    }
                     let mut h = g.clone();
-                    h.push(a);
+                    h.push(*a);
                     next.push(h);
                 }
             }
